@@ -918,7 +918,7 @@ func runC04(w *W) {
 
 	// (10b) the structured spaces of fuzzspace2.go (what parses: scripts, WINDOW definitions, statement × tail subsets, odd calls)
 	fuzzSpace2(w, func(input, desc string) {
-		if desc == "recovery" || desc == "tails" || desc == "expr-suffix" { // not syntactically valid in general: C01–C03's business
+		if desc == "recovery" || desc == "tails" || desc == "expr-suffix" || desc == "clauses" { // not syntactically valid in general: C01–C03's business
 			return
 		}
 		run(input, "fs2-"+desc)
